@@ -1,6 +1,8 @@
 package main
 
 import (
+	"fmt"
+	"os"
 	"go/constant"
 	"go/token"
 	"go/types"
@@ -300,10 +302,32 @@ func checkC19(w *World, r *Report) {
 	}
 	// the query returns GetCurrentInflation
 	if q := w.Func("x/cfeminter/keeper.Keeper.Inflation"); q != nil {
+		// what the response carries (built in the handler or in a response helper below it) is result #0 of the shared
+		// routine and nothing else
 		ok := false
-		for _, s := range cg.Sites[q] {
-			if calleeIs(s, "x/cfeminter/keeper.Keeper.GetCurrentInflation") {
-				ok = true
+		t2 := w.Tracer()
+		if gi := w.Func("x/cfeminter/keeper.Keeper.GetCurrentInflation"); gi != nil {
+			t2.Opaque[funcName(gi)] = true
+		}
+		t2.Stop = []string{"Keeper.GetCurrentInflation"}
+		for _, sb := range w.storesBelow(q, "QueryInflationResponse", 2, nil) {
+			if sb.FS.Field != "Inflation" {
+				continue
+			}
+			o := t2.OriginsOfStore(q, sb)
+			if os.Getenv("C4E_DEBUG2") != "" {
+				fmt.Fprintf(os.Stderr, "C19Q leaves=%v ops=%v trunc=%v\n", o.LeafList(), o.Ops, o.Truncated)
+			}
+			ok = !o.Truncated && len(o.Leaves) > 0
+			for _, l := range o.Leaves {
+				if c, isC := l.V.(*ssa.Call); !(l.Kind == "call" && isC && strings.HasSuffix(callName(c.Common()), "keeper.Keeper.GetCurrentInflation")) {
+					ok = false
+				}
+			}
+			for op := range o.Ops {
+				if !strings.HasSuffix(op, "keeper.Keeper.GetCurrentInflation") {
+					ok = false
+				}
 			}
 		}
 		r.Check(ok, "C19.operands", "the Inflation query reports GetCurrentInflation", w.Pos(q.Pos()), "same routine as the mint event", "the query computes inflation by other means")
